@@ -30,12 +30,12 @@ CHECKS = {
     },
     "C03": {
         "quick": {"gen": [G("MC_C03", "MC_C03_quick.cfg")]},
-        "thorough": {"gen": [G("MC_C03", "MC_C03_thorough.cfg")], "drive": [D("strict", 30000)]},
+        "thorough": {"gen": [G("MC_C03", "MC_C03_thorough.cfg"), G("MC_C03", "MC_C03_thorough_b.cfg")], "drive": [D("strict", 30000)]},
         "require_ops": ["law.assoc", "law.unit", "law.interchange", "law.twist_natural", "law.twist_inverse", "law.hexagon"],
     },
     "C04": {
-        "quick": {"gen": [G("MC_C04", "MC_C04_quick.cfg")]},
-        "thorough": {"gen": [G("MC_C04", "MC_C04_thorough.cfg")]},
+        "quick": {"gen": [G("MC_C04", "MC_C04_quick.cfg")], "drive": [D("glue", 3000, only=["lax.compose", "strict.compose"])]},
+        "thorough": {"gen": [G("MC_C04", "MC_C04_thorough.cfg")], "drive": [D("glue", 60000, only=["lax.compose", "strict.compose"])]},
         "require_ops": ["law.dagger_compose", "law.dagger_tensor", "law.spider_fusion", "strict.spider", "lax.spider", "strict.dagger", "lax.dagger"],
     },
     "C05": {
@@ -73,8 +73,8 @@ CHECKS = {
         "require_ops": ["lax.quotient", "lax.h.quotient", "lax.h.coequalizer"],
     },
     "C10": {
-        "quick": {"gen": [G("MC_C10", "MC_C10_quick.cfg")]},
-        "thorough": {"gen": [G("MC_C10", "MC_C10_thorough.cfg")]},
+        "quick": {"gen": [G("MC_C10", "MC_C10_quick.cfg")], "drive": [D("glue", 3000, only=["lax.compose"])]},
+        "thorough": {"gen": [G("MC_C10", "MC_C10_thorough.cfg")], "drive": [D("glue", 60000, only=["lax.compose"])]},
         "require_ops": ["lax.to_strict", "lax.from_strict", "lax.roundtrip_strict", "lax.roundtrip_lax", "lax.compose", "lax.lax_compose", "lax.tensor_assign", "lax.append", "lax.singleton"],
     },
     "C11": {
